@@ -81,7 +81,26 @@ func (fx *FnExec) run() (err error) {
 	fx.allocName = alloc0
 	if fx.iface != nil && len(fn.Params) > 0 {
 		// self: the receiver boxed as the interface
-		sv := fx.makeInterface(fx.vals[fn.Params[0]], fx.iface.IfaceT)
+		rv := fx.vals[fn.Params[0]]
+		if fx.implOf != nil && isPointer(fx.implOf) && isPointer(rv.T) && !types.Identical(fx.implOf, rv.T) {
+			// promoted method: the receiver is a struct embedded (by value) in the object that implements the interface
+			if ost, ok := fx.structOf(elemOf(fx.implOf)); ok {
+				for i := 0; i < ost.NumFields(); i++ {
+					if ost.Field(i).Embedded() && types.Identical(ost.Field(i).Type(), elemOf(rv.T)) {
+						outer := fx.c.fresh("outer", "Int")
+						fx.c.assert(sAnd(app(">", outer, "0"), sLt(outer, alloc0)))
+						fx.c.assert(sEq(fx.subAddr(outer, elemOf(fx.implOf), i), rv.L[0]))
+						ov := Val{T: fx.implOf, L: []string{outer}}
+						if t, err := fx.typeInvFact(ov, &fx.cur); err == nil && t != tTrue {
+							fx.c.assert(t)
+						}
+						rv = ov
+						fx.outerVal = &ov
+					}
+				}
+			}
+		}
+		sv := fx.makeInterface(rv, fx.iface.IfaceT)
 		fx.selfVal = &sv
 	}
 	// representation invariant of the receiver and of every object passed in
@@ -166,6 +185,9 @@ func (fx *FnExec) specEnv(heap, old *Heap, results []Val) *Env {
 			if i+1 < len(fx.fn.Params) && n != "" && n != "_" {
 				env.names[n] = fx.vals[fx.fn.Params[i+1]]
 			}
+		}
+		for i := 1; i < len(fx.fn.Params); i++ {
+			env.names[fmt.Sprintf("arg%d", i-1)] = fx.vals[fx.fn.Params[i]]
 		}
 		if fx.iface.Obj != nil && fx.iface.Obj.Pkg() != nil {
 			env.pkg = fx.iface.Obj.Pkg()
@@ -819,6 +841,10 @@ func (fx *FnExec) instr(in ssa.Instruction) error {
 		iv := fx.val(x.Index)
 		if isSlice(x.X.Type()) {
 			fx.oblige("idx", "", sAnd(sLe("0", iv.one()), sLt(iv.one(), sv.L[1])), "index in range", x.Pos())
+			if et := elemOf(x.X.Type()); et != nil && (typeKey(et) == "byte" || typeKey(et) == "uint8") && len(sv.L) >= 3 {
+				// b[i] is the i-th byte of the string the slice denotes
+				fx.assume(sEq(app("str_at", app("bytes_str", sv.L[2], sv.L[1]), iv.one()), sSel(sv.L[2], iv.one())))
+			}
 			svc := sv
 			fx.set(x, Val{T: x.Type(), Loc: &Loc{Kind: LElem, Slice: &svc, Idx: iv.one(), ElemT: elemOf(x.X.Type())}})
 		} else if sv.Loc != nil && sv.Loc.Kind == LLocal {
@@ -842,7 +868,6 @@ func (fx *FnExec) instr(in ssa.Instruction) error {
 		sv := fx.val(x.X)
 		iv := fx.val(x.Index)
 		if isString(x.X.Type()) {
-			fx.c.declareFun("str_at", []string{"Str", "Int"}, "Int")
 			fx.oblige("idx", "", sAnd(sLe("0", iv.one()), sLt(iv.one(), app("str_len", sv.one()))), "string index in range", x.Pos())
 			r := app("str_at", sv.one(), iv.one())
 			fx.assume(sAnd(sLe("0", r), sLe(r, "255")))
@@ -1277,7 +1302,6 @@ func (fx *FnExec) lookup(x *ssa.Lookup) error {
 	mv := fx.val(x.X)
 	kv := fx.val(x.Index)
 	if isString(x.X.Type()) {
-		fx.c.declareFun("str_at", []string{"Str", "Int"}, "Int")
 		fx.set(x, Val{T: x.Type(), L: []string{app("str_at", mv.one(), kv.one())}})
 		return nil
 	}
@@ -1347,7 +1371,6 @@ func (fx *FnExec) sliceOp(x *ssa.Slice) error {
 		if hi == "" {
 			hi = app("str_len", s)
 		}
-		fx.c.declareFun("str_sub", []string{"Str", "Int", "Int"}, "Str")
 		fx.oblige("idx", "", sAnd(sLe("0", lo), sLe(lo, hi), sLe(hi, app("str_len", s))), "string slice bounds", x.Pos())
 		r := app("str_sub", s, lo, hi)
 		fx.assume(sEq(app("str_len", r), sSub(hi, lo)))
@@ -1370,6 +1393,10 @@ func (fx *FnExec) sliceOp(x *ssa.Slice) error {
 				q := fmt.Sprintf("q!i!%d", fx.c.nfresh)
 				fx.assume(fmt.Sprintf("(forall ((%s Int)) (! (= (select %s %s) (select %s (+ %s %s))) :pattern ((select %s %s))))", q, na, q, v.L[2+i], q, lo, na, q))
 				out.L = append(out.L, na)
+			}
+			if typeKey(et) == "byte" || typeKey(et) == "uint8" {
+				// the bytes of b[lo:hi] are the corresponding substring
+				fx.assume(sEq(app("bytes_str", out.L[2], out.L[1]), app("str_sub", app("bytes_str", v.L[2], v.L[1]), lo, hi)))
 			}
 		}
 		fx.set(x, out)
@@ -1518,6 +1545,7 @@ func (fx *FnExec) assumeInterfacePre() error {
 			}
 			fx.c.comment("precondition of " + displayKey(c.Key) + ": " + r.Text)
 			fx.c.assert(t)
+			fx.inheritedPre = true
 		}
 	}
 	return nil
